@@ -254,6 +254,69 @@ def _renderer_classes(corpus: Corpus) -> set[str]:
 
 
 # ---------------------------------------------------------------------------
+# reachability that does not depend on *where* the renderer's dynamic dispatch is written
+
+
+def _dispatch_targets(corpus: Corpus, call: ast.Call, fi: FunctionInfo) -> list[FunctionInfo]:
+    """Targets of the renderer's dynamic dispatch wherever it is written (the engine freezes the special
+    edge on two caller names; a helper extracted from them must keep it):
+    ``<x>.rules[<key>](...)`` and ``getattr(<x>, f"render_...")(...)`` -> every render_* method."""
+    f = call.func
+    hit = False
+    if isinstance(f, ast.Subscript):
+        v = _deref(f.value, fi)
+        if isinstance(v, ast.Attribute) and v.attr == "rules":
+            hit = True
+    elif isinstance(f, ast.Call) and dotted(f.func) == "getattr" and len(f.args) >= 2:
+        a = f.args[1]
+        if isinstance(a, ast.JoinedStr) and a.values and isinstance(a.values[0], ast.Constant) and str(a.values[0].value).startswith("render_"):
+            hit = True
+    elif isinstance(f, ast.Name):
+        v = _deref(f, fi)
+        if v is not f and isinstance(v, (ast.Subscript, ast.Call)):
+            fake = ast.Call(func=v, args=[], keywords=[])
+            return _dispatch_targets(corpus, fake, fi)
+    if not hit:
+        return []
+
+    def compute():
+        base = corpus.cls("mdit_to_docutils.base:DocutilsRenderer")
+        out = []
+        for ci in [base] + corpus.subclasses(base):
+            for n, m in ci.methods.items():
+                if n.startswith("render_") and n != "render_children":
+                    out.append(m)
+        return out
+
+    return corpus.cache("c20-render-methods", compute)
+
+
+def _reach(corpus: Corpus, entries: list[FunctionInfo], stop=None) -> dict[str, list[str]]:
+    """Like CallGraph.reachable, plus the dispatch edges of `_dispatch_targets`."""
+    g = get_callgraph(corpus)
+    seen: dict[str, list[str]] = {}
+    work = [(e, [e.fq]) for e in entries]
+    while work:
+        fi, chain = work.pop()
+        if fi.fq in seen:
+            continue
+        seen[fi.fq] = chain
+        if stop is not None and stop(fi):
+            continue
+        for inner in fi.module.functions.values():
+            if inner.parent_func == fi and inner.fq not in seen:
+                work.append((inner, chain + [inner.fq]))
+        for call, targets in g.callees(fi):
+            ts = list(g.flat_targets(targets))
+            if not any(isinstance(t, Special) for t in targets):
+                ts += _dispatch_targets(corpus, call, fi)
+            for t in ts:
+                if t.fq not in seen:
+                    work.append((t, chain + [t.fq]))
+    return seen
+
+
+# ---------------------------------------------------------------------------
 # front ends: who renders markdown into a docutils document
 
 
@@ -716,7 +779,7 @@ def r2_no_late_raw(corpus: Corpus, rep: Report, tier: str):
         if ent.fq in seen_entries:
             continue
         seen_entries.add(ent.fq)
-        reach = g.reachable([ent])
+        reach = _reach(corpus, [ent])
         rep.saw_function(ent.fq)
         bad = [fq for fq in reach if fq in by_func]
         if not bad:
@@ -737,7 +800,7 @@ def r2_no_late_raw(corpus: Corpus, rep: Report, tier: str):
         rm = corpus.lookup_method(fe.renderer, "render")
         if rm is None:
             raise AnchorMissing(f"{fe.renderer.fq}.render")
-        for fq, chain in g.reachable([rm]).items():
+        for fq, chain in _reach(corpus, [rm]).items():
             render_reach.setdefault(fq, chain)
     n_render = 0
     for fi, c in ctors:
@@ -746,7 +809,7 @@ def r2_no_late_raw(corpus: Corpus, rep: Report, tier: str):
             n_render += 1
             rep.ok("C20.R2", k, fi.module.site(c), "render-phase construction: built before the filter runs")
         else:
-            owner_reach = g.reachable([e for e, _ in late])
+            owner_reach = _reach(corpus, [e for e, _ in late])
             if fi.fq in owner_reach:
                 continue  # already reported above
             rep.listed("C20.R2", k, fi.module.site(c), "not reachable from any front end, transform or directive")
@@ -904,7 +967,7 @@ def _directive_entries(corpus: Corpus, rd: FunctionInfo) -> list[tuple[FunctionI
                 if m is not None:
                     entries.setdefault(m.fq, (m, f"registered by {fi.qualname} ({c.func.attr})"))
     for _ in range(5):
-        reach = g.reachable([e for e, _ in entries.values()], stop=lambda f: f.name == "nested_render_text")
+        reach = _reach(corpus, [e for e, _ in entries.values()], stop=lambda f: f.name == "nested_render_text")
         grew = False
         for fq in list(reach):
             f = by_fq.get(fq)
@@ -997,7 +1060,7 @@ def r3_file_read_dominance(corpus: Corpus, rep: Report, tier: str):
 
     def reaches_reader(t: FunctionInfo) -> str | None:
         if t.fq not in reach_cache:
-            r = g.reachable([t])
+            r = _reach(corpus, [t])
             hit = [fq for fq in r if fq in reader_funcs and fq != run.fq] or [fq for fq in r if fq in reader_funcs]
             reach_cache[t.fq] = hit[0] if hit else None  # type: ignore[assignment]
         return reach_cache[t.fq]  # type: ignore[return-value]
@@ -1038,7 +1101,7 @@ def r3_file_read_dominance(corpus: Corpus, rep: Report, tier: str):
     dir_entries = _directive_entries(corpus, rd)
     for e, why in dir_entries[1:]:
         rep.listed("C20.R3", f"{e.fq}|directive entry", e.site(), why)
-    reach_rd = g.reachable([e for e, _ in dir_entries], stop=lambda f: f.name == "nested_render_text")
+    reach_rd = _reach(corpus, [e for e, _ in dir_entries], stop=lambda f: f.name == "nested_render_text")
     for fi, c, what in reads:
         if fi.fq == run.fq:
             continue
